@@ -2,10 +2,13 @@
 """Prints a markdown table of /verif/seeded/*/meta.json (for DESIGN.md §7)."""
 import json, glob, os
 rows=[]
-for d in sorted(glob.glob('/verif/seeded/*')):
+for d in sorted(glob.glob('/verif/seeded/C*')):
     m=json.load(open(os.path.join(d,'meta.json')))
     name=os.path.basename(d)
     checks=", ".join(f"{c['check']}:{'CAUGHT' if c['exit']==1 and c['violation_lines']>0 else 'missed'}" for c in m.get('checks_run_against_it',[]))
+    re=m.get('recheck_after_strengthening')
+    if re:
+        checks += " → after strengthening: " + ", ".join(f"{c['check']}:{'CAUGHT' if c['exit']==1 and c['violation_lines']>0 else 'missed'}" for c in re)
     summ=(m.get('summary') or m.get('description') or '')[:150].replace('|','/').replace('\n',' ')
     rows.append(f"| {name} | {summ} | {'yes' if m.get('confirmed_by_author_of_checks') else 'NO'} | {checks} |")
 print("| seeded change | what it does | confirmed | quick-tier result |")
